@@ -6,6 +6,9 @@ use crate::{BitFont, Buffer, CallbackAction, Caret, EngineResult, ParserError, S
 
 use super::{parse_next_number, Parser};
 
+/// Size of the macro space the terminal reports (DSR 62 answers 32767): no macro can be longer.
+const MAX_MACRO_LEN: usize = 32767;
+
 #[derive(Debug, Clone, Copy)]
 enum HexMacroState {
     FirstHex,
@@ -81,7 +84,7 @@ impl Parser {
             }
             match self.parsed_numbers.get(2) {
                 Some(0) => {
-                    self.parse_macro_sequence(*pid as usize, start_index);
+                    self.parse_macro_sequence(*pid as usize, start_index)?;
                 }
                 Some(1) => {
                     self.parse_hex_macro_sequence(*pid as usize, start_index)?;
@@ -99,8 +102,12 @@ impl Parser {
         Err(ParserError::UnsupportedDCSSequence(format!("encountered unsupported macro definition: '{}'", self.parse_string)).into())
     }
 
-    fn parse_macro_sequence(&mut self, id: usize, start_index: usize) {
+    fn parse_macro_sequence(&mut self, id: usize, start_index: usize) -> EngineResult<CallbackAction> {
+        if self.parse_string.len() - start_index > MAX_MACRO_LEN {
+            return Err(ParserError::UnsupportedDCSSequence("macro definition exceeds the macro space".to_string()).into());
+        }
         self.macros.insert(id, self.parse_string[start_index..].to_string());
+        Ok(CallbackAction::NoUpdate)
     }
 
     fn parse_hex_macro_sequence(&mut self, id: usize, start_index: usize) -> EngineResult<CallbackAction> {
@@ -115,9 +122,16 @@ impl Parser {
                 HexMacroState::FirstHex => {
                     if ch == ';' && read_repeat {
                         read_repeat = false;
+                        if (repeat_number.max(0) as usize).saturating_mul(repeat_rec.len()).saturating_add(marco_rec.len()) > MAX_MACRO_LEN {
+                            return Err(ParserError::UnsupportedDCSSequence("macro definition exceeds the macro space".to_string()).into());
+                        }
                         #[cfg(icy_engine_verif)]
                         crate::verif::tick((repeat_number.max(0) as u64).saturating_mul(repeat_rec.len() as u64 + 1));
-                        (0..repeat_number).for_each(|_| marco_rec.push_str(&repeat_rec));
+                        if !repeat_rec.is_empty() {
+                            if !repeat_rec.is_empty() {
+                (0..repeat_number).for_each(|_| marco_rec.push_str(&repeat_rec));
+            }
+                        }
                         continue;
                     }
                     if ch == '!' {
@@ -159,9 +173,17 @@ impl Parser {
             }
         }
         if read_repeat {
+            if (repeat_number.max(0) as usize).saturating_mul(repeat_rec.len()).saturating_add(marco_rec.len()) > MAX_MACRO_LEN {
+                return Err(ParserError::UnsupportedDCSSequence("macro definition exceeds the macro space".to_string()).into());
+            }
             #[cfg(icy_engine_verif)]
             crate::verif::tick((repeat_number.max(0) as u64).saturating_mul(repeat_rec.len() as u64 + 1));
-            (0..repeat_number).for_each(|_| marco_rec.push_str(&repeat_rec));
+            if !repeat_rec.is_empty() {
+                (0..repeat_number).for_each(|_| marco_rec.push_str(&repeat_rec));
+            }
+        }
+        if marco_rec.len() > MAX_MACRO_LEN {
+            return Err(ParserError::UnsupportedDCSSequence("macro definition exceeds the macro space".to_string()).into());
         }
 
         self.macros.insert(id, marco_rec);
